@@ -350,6 +350,12 @@ class Engine:
     self.trace = []
 
   # ------------------------------------------------------------------ join
+  def _class_scope(self, k):
+    """names visible to a class-level expression: the functions defined in
+    the class body (plain functions there, e.g. entries of a dispatch table)"""
+    return dict((nm, V(None, fn=('repo', m, None)))
+                for nm, m in k.methods.items() if isinstance(m, FuncInfo))
+
   def _elem_consts(self, ev, itv):
     """the element of a literal tuple / list of constants is one of them"""
     if isinstance(ev, V) and ev.c is NOCONST and itv.elts and \
@@ -795,6 +801,36 @@ class Engine:
       may_skip = self.dom.loop_may_skip(stmt, itv, st)
       if itv.elts is not None and len(itv.elts) > 0:
         may_skip = False
+      if itv.elts is not None and 0 < len(itv.elts) <= 16 and \
+              itv.ty != 'set' and not stmt.orelse and \
+              all(isinstance(x, V) for x in itv.elts) and \
+              any(x.elts is not None or x.fn is not None or
+                  x.c is not NOCONST for x in itv.elts) and \
+              getattr(self, '_unroll_depth', 0) < 2:
+        # a loop over a literal tuple / list / dict.items() of known entries
+        # is executed entry by entry (exact: `for name, value in (('a', a),
+        # ('b', b)): setattr(self, name, value)`)
+        self._unroll_depth = getattr(self, '_unroll_depth', 0) + 1
+        try:
+          cur = [st]
+          for x in itv.elts:
+            if not cur:
+              break
+            s = self.join_states([c.copy() for c in cur]) if len(cur) > 1 \
+                else cur[0].copy()
+            s.aux = self.dom.aux_copy(s.aux)
+            self.assign(stmt.target, x, s, func, stmt)
+            bf = self.exec_block(stmt.body, [s], func)
+            f.returns.extend(bf.returns)
+            f.raises.extend(bf.raises)
+            f.breaks.extend(bf.breaks)
+            cur = bf.normal + bf.continues
+          out = list(cur) + list(f.breaks)
+          f.breaks = []
+          f.normal = self._merge(out)
+          return f
+        finally:
+          self._unroll_depth -= 1
     def one_pass(head, first):
       """one iteration from `head`: (states leaving the loop without
       entering the body, flow of the body)"""
@@ -1122,7 +1158,7 @@ class Engine:
         fake = FuncInfo(k.module, '<classbody>', ast.parse('def f(): pass')
                         .body[0])
         fake.cls = None
-        return self.eval(expr, State({}, st.aux), fake)
+        return self.eval(expr, State(self._class_scope(k), st.aux), fake)
       if objv.obj.oid == 'self' and attr in self.repo.init_params(cls):
         return V(self.dom.hyperparam(cls, attr, node),
                  origin=('hyper', attr))
@@ -1140,7 +1176,7 @@ class Engine:
       if expr is not None:
         fake = FuncInfo(k.module, '<classbody>',
                         ast.parse('def f(): pass').body[0])
-        return self.eval(expr, State({}, st.aux), fake)
+        return self.eval(expr, State(self._class_scope(k), st.aux), fake)
     if objv.fn is not None and objv.fn[0] == 'ext':
       d = objv.fn[1] + '.' + attr
       return V(self.dom.global_read(func.module, d, node),
@@ -1631,6 +1667,11 @@ class Engine:
         self.dom.on_call('ext', meth[1], [recv] + args, kwargs, e, st)
         return self._wrap(self.dom.ext_call(meth[1], [recv] + args, kwargs,
                                             e, st, self))
+      # not a method: the attribute holds a callable (a stored function, a
+      # user-supplied hyper-parameter): call its value
+      if isinstance(e.func, ast.Attribute):
+        callee = self.load_attr(recv, name, e.func, st, func)
+        return self.call_value(callee, args, kwargs, e, st, func, want_flow)
     if recv.fn is not None and recv.fn[0] == 'class':
       meth = self.repo.resolve_method(recv.fn[1], name)
       if isinstance(meth, FuncInfo):
@@ -1650,8 +1691,30 @@ class Engine:
                ty='str')
     if name == 'join' and recv.ty == 'str':
       return V(self.dom.fstring(args, e, st), ty='str')
+    if name == 'update' and recv.origin and recv.origin[0] == 'vars-of' and \
+            not args and '**' not in kwargs:
+      # vars(obj).update(a=x, b=y) stores obj.a, obj.b
+      objv = recv.origin[1]
+      for k_, v_ in kwargs.items():
+        self.dom.on_store_attr(objv, k_, v_, e, st)
+        st.vars[(objv.obj.oid, k_)] = v_
+      return self._constv(None)
     if name == 'copy' and recv.kv is not None:
       return recv.with_()
+    if name in ('items', 'keys', 'values') and recv.kv and \
+            recv.ty == 'dict' and not args and not kwargs:
+      outs = []
+      for k_, v_ in recv.kv.items():
+        kv_ = self._constv(k_, e)
+        if name == 'items':
+          pair = V(None, elts=(kv_, v_))
+          pair.d = self.dom.tuple([kv_, v_], e, st)
+          outs.append(pair)
+        else:
+          outs.append(kv_ if name == 'keys' else v_)
+      r = V(None, elts=tuple(outs), ty='list')
+      r.d = self.dom.list(outs, e, st)
+      return r
     if name == 'get' and recv.kv and recv.ty == 'dict' and \
             1 <= len(args) <= 2 and not kwargs:
       k = args[0].const()
@@ -1741,6 +1804,16 @@ class Engine:
         v = V(None, kv=dict(kwargs), ty='dict')
         v.d = self.dom.dict(kwargs, e, st)
         return v
+      if d == 'builtins.setattr' and len(args) == 3 and not kwargs and \
+              isinstance(args[1].const(), str) and args[0].obj is not None:
+        # setattr(obj, '<literal name>', v) is obj.<name> = v
+        self.dom.on_call('ext', d, full, kwargs, e, st)
+        self.dom.on_store_attr(args[0], args[1].const(), args[2], e, st)
+        st.vars[(args[0].obj.oid, args[1].const())] = args[2]
+        return self._constv(None)
+      if d == 'builtins.vars' and len(args) == 1 and not kwargs and \
+              args[0].obj is not None:
+        return V(self.dom.top(e), origin=('vars-of', args[0]))
       if d == 'builtins.getattr' and len(args) >= 2 and \
               isinstance(args[1].const(), str) and args[0].obj is not None:
         name = args[1].const()
